@@ -45,6 +45,13 @@ def run(prog, rep):
     rep.expect_min("C07.noseed", 2)
     from .purity import row as _stateless_row
     rep.part(_stateless_row, prog, rep, "C07", 5)
+    # "each conditional variable is drawn from its conditional distribution": how ConditionalDistribution.draw_sample hands the
+    # dependence values to its template is C08's wiring, filed here too
+    from .purity import fresh_draw
+    rep.part(fresh_draw, prog, rep, "C07.fresh")
+    rep.explanation += " C07.fresh: draw_sample of every joint model reads no attribute written between calls - the requested size is honoured by a new draw."
+    from .shared import conditional_rows
+    conditional_rows(prog, rep, "C07.conditional", ["draw_sample"], 4)
 
 def chain(prog, rep):
     fn = prog.func(f"{GHM}.draw_sample")
